@@ -34,7 +34,7 @@ func (c13) Assumptions() []string {
 
 func (c13) Phases(env run.Env) []run.Phase {
 	if env.Thorough {
-		return []run.Phase{{Name: "shared-packet", Race: true, N: 2400}}
+		return []run.Phase{{Name: "shared-packet", Race: true, N: 120000}}
 	}
 	return []run.Phase{{Name: "shared-packet", Race: true, N: 320}}
 }
